@@ -576,6 +576,9 @@ class Obl:
             others = [r for r in others if r not in exp]
             self.res['cbmc_properties'] = len(others)
             self.res['discharged'] = sum(1 for r in others if r['status'] == 'SUCCESS')
+        undecided_props = [r for r in others if r['status'] not in ('SUCCESS', 'FAILURE')]
+        if undecided_props:
+            return self.undecided('solver left %d properties undecided (status %s), e.g. %s' % (len(undecided_props), undecided_props[0]['status'], undecided_props[0].get('property')))
         bad = [r for r in others if r['status'] != 'SUCCESS']
         self.res['samples'] = [{'property': r.get('property'), 'description': r.get('description'), 'status': r['status']}
                                for r in (others[:2] + [r for r in others if 'postcondition' in r.get('property', '') or 'assertion' in r.get('property', '')][:4])]
